@@ -243,7 +243,7 @@ func (r *Runner) observe(evs []abci.Event) (reqs []Req, xfers []Xfer, types []st
 			}
 			reqs = append(reqs, Req{Route: "CCTP", WithCaller: len(d.DestinationCaller) != 0,
 				From: w.nameOfAddr(d.Depositor), Amt: capInt(d.Amount), Denom: den,
-				Dom: int64(d.DestinationDomain), Mint: w.nameOfBytes(d.MintRecipient), Caller: w.nameOfBytes(d.DestinationCaller),
+				Dom: int64(d.DestinationDomain), Mint: w.nameOfBytes(d.MintRecipient), Caller: w.nameOfCaller(d.DestinationCaller),
 				Tok: "NONE", Rcp: "NONE", Hook: "NONE", Meta: "NONE", To: "NONE", Mfd: "NONE"})
 		case "hyperlane.warp.v1.EventSendRemoteTransfer":
 			m, err := sdk.ParseTypedEvent(e)
